@@ -28,6 +28,10 @@ import (
 //	                        protocol keyword) -> "Error: No symbol type information"; the loadable spelling is
 //	                        "icmp type 8 icmp code 0"
 //	wrong-family            "ip saddr" in an ip6 table / "ip6 saddr" in an ip table
+//	nft-conflicting-protocols  "meta l4proto tcp icmp type != 3", "meta l4proto 58 icmp type 128", "meta l4proto udp tcp dport 80":
+//	                        a header expression after a positive "meta l4proto" of another protocol ->
+//	                        "Error: conflicting protocols specified: tcp vs. icmp" (also with a real load in a netns);
+//	                        "meta l4proto != tcp icmp type != 3" and "icmp type != 3 meta l4proto tcp" do load
 func parseNft(body string, lenient bool) (*rule, error) {
 	r := &rule{text: body}
 	vocab := func(tk, why string) error { return &VocabError{Kind: Nft, Rule: body, Token: tk, Why: why} }
@@ -89,6 +93,15 @@ func parseNft(body string, lenient bool) (*rule, error) {
 		return nil
 	}
 	terminalSeen := false
+	// protocol context established by a preceding positive "meta l4proto X" (nft refuses a later header
+	// expression of another protocol: "conflicting protocols specified")
+	ctxProto := -1
+	conflict := func(implied int, kw string) error {
+		if ctxProto >= 0 && ctxProto != implied {
+			return load("nft-conflicting-protocols", "header expression '"+kw+"' after 'meta l4proto "+strconv.Itoa(ctxProto)+"' (nft: conflicting protocols specified)")
+		}
+		return nil
+	}
 
 	for i < len(t) {
 		if terminalSeen {
@@ -199,6 +212,9 @@ func parseNft(body string, lenient bool) (*rule, error) {
 				pn, ok := parseProto(a)
 				if !ok {
 					return nil, vocab(a, "unknown protocol")
+				}
+				if !n && ctxProto < 0 {
+					ctxProto = pn
 				}
 				add(func(p *Packet, _, _ uint32) bool { return (p.Proto == pn) != n })
 			case "mark":
@@ -361,6 +377,9 @@ func parseNft(body string, lenient bool) (*rule, error) {
 			if peek(0) == "sport" || peek(0) == "dport" {
 				return nil, load("nft-bare-header-field", "header field '"+peek(0)+"' without its protocol keyword")
 			}
+			if err := conflict(pn, s); err != nil {
+				return nil, err
+			}
 			add(func(p *Packet, _, _ uint32) bool {
 				// implicit dependency: meta l4proto <proto>
 				if p.Proto != pn {
@@ -398,6 +417,9 @@ func parseNft(body string, lenient bool) (*rule, error) {
 				}
 				if !strings.HasPrefix(a, "{") {
 					return nil, vocab(a, "expected { type . code }")
+				}
+				if err := conflict(want, s); err != nil {
+					return nil, err
 				}
 				type tc struct{ t, c int }
 				var pairs []tc
@@ -439,6 +461,9 @@ func parseNft(body string, lenient bool) (*rule, error) {
 			} else if pk == "code" || pk == "type" {
 				// nft v1.0.6: `icmp type 8 code 0` -> "Error: No symbol type information"
 				return nil, load("nft-bare-header-field", "header field '"+pk+"' without its protocol keyword ('"+s+" "+pk+"' is the loadable spelling)")
+			}
+			if err := conflict(want, s); err != nil {
+				return nil, err
 			}
 			isType := f == "type"
 			add(func(p *Packet, _, _ uint32) bool {
